@@ -175,3 +175,117 @@ void h(void) {
                             expect_classes=["loop_invariant_step", "bkldlt.copy_data (all n)"],
                             note="UNBOUNDED in n on the packed-cursor model with a ghost provenance record (source entry, conjugation flag, write and shift counts) for an arbitrary packed entry; uplo symbolic"))
     return groups
+
+
+# =========================================================================== DoubleShiftQR on the cursor model: unbounded in n
+DH = "LinAlg/DoubleShiftQR.h"
+
+DSC_TYPES = r'''
+typedef struct { Mat *M; Index r0, c0, rows, cols; } BlockC;     /* Eigen::Ref of M.block(r0, c0, rows, cols) */
+typedef struct { Index m_n; Mat m_mat_H; Scalar m_shift_s, m_shift_t; Index m_ref_u_cols; Scalar ucol[3]; unsigned char *m_ref_nr; _Bool m_computed; Scalar m_near_0, m_eps; } DSC;
+/* the 3 x n reflector store is data-less: column index checked, values in a 3-entry scratch column */
+static Scalar *UCOL(DSC *D, Index c) { __CPROVER_assert(0 <= c && c < D->m_ref_u_cols, "Eigen index assertion: m_ref_u(0, col) in range"); D->ucol[0] = nondet_Scalar(); D->ucol[1] = nondet_Scalar(); D->ucol[2] = nondet_Scalar(); return D->ucol; }
+static Scalar *UELEM(DSC *D, Index r, Index c) { __CPROVER_assert(0 <= r && r < 3 && 0 <= c && c < D->m_ref_u_cols, "Eigen index assertion: m_ref_u(row, col) in range"); D->ucol[r] = nondet_Scalar(); return &D->ucol[r]; }
+static BlockC BLOCKC(Mat *M, Index r0, Index c0, Index nr, Index nc)
+{ __CPROVER_assert(0 <= r0 && 0 <= c0 && 0 <= nr && 0 <= nc && r0 + nr <= M->rows && c0 + nc <= M->cols, "Eigen block assertion: block(r0, c0, nr, nc) within the matrix");
+  BlockC b; b.M = M; b.r0 = r0; b.c0 = c0; b.rows = nr; b.cols = nc; return b; }
+static Cur BDATA(BlockC X) { Cur k; k.r = X.r0; k.c = X.c0; return k; }           /* X.data(): the block's first element */
+static Cur BSTEP(BlockC X, Cur k, Index stride)                                    /* p + stride: same row, next column - only if the stride is the leading dimension */
+{ __CPROVER_assert(stride == X.M->rows, "outer stride passed to apply_PX / apply_XP is the leading dimension of the matrix"); k.c++; return k; }
+static Scalar *BAT(BlockC X, Cur k, Index off)                                      /* p[off]: must address an element of the block */
+{ __CPROVER_assert(0 <= off && X.r0 <= k.r && k.r + off < X.r0 + X.rows && X.c0 <= k.c && k.c < X.c0 + X.cols, "block access: p[k] addresses an element of the block p walks");
+  X.M->cell = nondet_Scalar(); return &X.M->cell; }
+/* value kernels: replaced by their frames (values do not matter for any claim made here; stable_norm3 >= 0 is proved in dsqr.scalar.*) */
+static Scalar stable_norm3(Scalar a, Scalar b, Scalar c) { (void)a; (void)b; (void)c; Scalar r = nondet_Scalar(); __CPROVER_assume(r >= (Scalar)0); return r; }
+static void stable_scaling(Scalar *a, Scalar *b, Scalar *c) { *a = nondet_Scalar(); *b = nondet_Scalar(); *c = nondet_Scalar(); }
+static Scalar FHYPOT(Scalar a, Scalar b) { Scalar r = nondet_Scalar(); __CPROVER_assume(r >= (Scalar)0); (void)a; (void)b; return r; }
+Index g_q;
+#define NR_OK(D, q, hi) (((D)->m_ref_nr[q] == 1 || (D)->m_ref_nr[q] == 2 || (D)->m_ref_nr[q] == 3) && (q) + (D)->m_ref_nr[q] <= (hi))
+#define DS_INV(D) (1 <= (D)->m_n && (D)->m_n <= NMAXD && (D)->m_mat_H.rows == (D)->m_n && (D)->m_mat_H.cols == (D)->m_n && \
+                   (D)->m_ref_u_cols == (D)->m_n && __CPROVER_OBJECT_SIZE((D)->m_ref_nr) == (D)->m_n && (D)->m_near_0 > (Scalar)0)
+#define NMAXD 100000
+'''
+
+
+def dsqr_unbounded(report):
+    """DoubleShiftQR: update_block (bulge chase) and compute (block splitting) for EVERY n on the cursor model: every block expression, coefficient and
+    pointer access is inside the matrix / the block it walks, every reflector mark nr[q] is in {1,2,3} with q + nr[q] <= end-of-block + 1 (what makes
+    apply_QtY / apply_YQ safe), blocks partition 0..n-1."""
+    mem = ["m_near_0", "m_eps", "m_n", "m_mat_H", "m_shift_s", "m_shift_t", "m_ref_u", "m_ref_nr", "m_computed"]
+    if X.members(DH, "DoubleShiftQR") != mem:
+        raise X.ExtractionBreak("DoubleShiftQR members changed")
+    HM = "(&D->m_mat_H)"
+
+    def pf(b, R):
+        b = R.call_rewrite("block", r"\bD->m_mat_H\.block(?=\()", lambda m, a: "BLOCKC(%s, %s)" % (HM, ", ".join(a)) if len(a) == 4 else None, b)
+        b = R.sub("Hptr", r"&D->m_mat_H\.coeffRef\(([^(),]+), ([^(),]+)\)", r"CUR(%s, \1, \2)" % HM, b)
+        b = R.sub("Hcoeff", r"\bD->m_mat_H\.coeff(?:Ref)?\(([^(),]+), ([^(),]+)\)", r"(*MAT_ELEM(%s, \1, \2))" % HM, b)
+        b = R.sub("ucoeffp", r"&D->m_ref_u\.coeffRef\(0, ([^(),]+)\)", r"UCOL(D, \1)", b)
+        b = R.sub("ucoeff", r"\bD->m_ref_u\.coeff(?:Ref)?\(([^(),]+), ([^(),]+)\)", r"(*UELEM(D, \1, \2))", b)
+        b = R.sub("nrcoeff", r"\bD->m_ref_nr\.coeff(?:Ref)?\(([^()]+)\)", r"D->m_ref_nr[\1]", b)
+        b = R.sub("nrdata", r"\bD->m_ref_nr\.data\(\)", "D->m_ref_nr", b)
+        b = R.sub("xshape", r"\bX\.(rows|cols)\(\)", r"X.\1", b)
+        b = R.sub("hypot", r"Eigen::numext::hypot\(", "FHYPOT(", b)
+        b = R.sub("selfcalls", r"(?<![\w>.])(compute_reflector|apply_PX|apply_XP|update_block)\(", r"\1(D, ", b)
+        return b
+    parts = {}
+    # compute_reflector (scalars), compute_reflector (pointer), apply_PX / apply_XP (matrix blocks), update_block, compute
+    f = X.locate(DH, "compute_reflector", cls="DoubleShiftQR", params_re=r"x1")
+    t, R = cgen.emit(f, "compute_reflector3", ret_c="void", self_type="DSC", self_name="D", members=mem, post_fn=lambda b, R: R.sub(
+        "scal", r"stable_scaling\(u\[(\d)\], u\[(\d)\], u\[(\d)\]\);", r"stable_scaling(&u[\1], &u[\2], &u[\3]);", pf(b, R), min_fires=3, max_fires=3))
+    report["DoubleShiftQR::compute_reflector(cursor)"] = R.fired
+    parts["cr3"] = t
+    f = X.locate(DH, "compute_reflector", cls="DoubleShiftQR", params_re=r"const Scalar\* x")
+    t, R = cgen.emit(f, "compute_reflectorp", ret_c="void", self_type="DSC", self_name="D", members=mem, param_types={"x": "Cur"},
+                     post_fn=lambda b, R: R.sub("fwd", r"compute_reflector\(D, x\[0\], x\[1\], x\[2\], ind\);",
+                                                "compute_reflector3(D, *CUR_AT(%s, x, 0, 0), *CUR_AT(%s, x, 1, 0), *CUR_AT(%s, x, 2, 0), ind);" % (HM, HM, HM), pf(b, R), min_fires=1, max_fires=1))
+    parts["crp"] = t
+    px_rules = [("data", r"Scalar\* xptr = X\.data\(\);", "Cur xptr = BDATA(X);", {"max": 1}),
+                ("step", r"\bxptr \+= stride\b", "xptr = BSTEP(X, xptr, stride)", {"min": 2, "max": 2}),
+                ("elem", r"\bxptr\[(\d)\]", r"(*BAT(X, xptr, \1))", {"min": 6})]
+    f = X.locate(DH, "apply_PX", cls="DoubleShiftQR", params_re=r"GenericMatrix")
+    lc_px = {k: "__CPROVER_assigns(i, xptr, X.M->cell) __CPROVER_loop_invariant(0 <= i && i <= ncol && xptr.r == X.r0 && xptr.c == X.c0 + i) __CPROVER_decreases(ncol - i)" for k in (0, 1)}
+    t, R = cgen.emit(f, "apply_PX", ret_c="void", self_type="DSC", self_name="D", members=mem, param_types={"X": "BlockC"}, pre_rules=px_rules, post_fn=pf, loop_contracts=lc_px,
+                     pre_body=' __CPROVER_assert(0 <= u_ind && u_ind < D->m_n && X.rows >= 2 && X.cols >= 0, "precondition of apply_PX at its call site: reflector index in range, block has >= 2 rows");')
+    report["DoubleShiftQR::apply_PX(cursor)"] = R.fired
+    parts["px"] = t
+    xp_rules = [("heads", r"Scalar \*X0 = X\.data\(\), \*X1 = X0 \+ stride;", "Cur X0 = BDATA(X); Cur X1 = BSTEP(X, X0, stride);", {"max": 1}),
+                ("head2", r"Scalar\* X2 = X1 \+ stride;", "Cur X2 = BSTEP(X, X1, stride);", {"max": 1}),
+                ("elem", r"\b(X[012])\[i\]", r"(*BAT(X, \1, i))", {"min": 6})]
+    f = X.locate(DH, "apply_XP", cls="DoubleShiftQR", params_re=r"GenericMatrix")
+    lc_xp = {k: "__CPROVER_assigns(i, X.M->cell) __CPROVER_loop_invariant(0 <= i && i <= nrow) __CPROVER_decreases(nrow - i)" for k in (0, 1)}
+    t, R = cgen.emit(f, "apply_XP", ret_c="void", self_type="DSC", self_name="D", members=mem, param_types={"X": "BlockC"}, pre_rules=xp_rules, post_fn=pf, loop_contracts=lc_xp,
+                     pre_body=' __CPROVER_assert(0 <= u_ind && u_ind < D->m_n && X.cols >= 2 && X.rows >= 0, "precondition of apply_XP at its call site: reflector index in range, block has >= 2 columns");')
+    report["DoubleShiftQR::apply_XP(cursor)"] = R.fired
+    parts["xp"] = t
+    f = X.locate(DH, "update_block", cls="DoubleShiftQR")
+    ub_late = lambda b, R: R.sub("crl", r"compute_reflector\(D, (\(\*MAT_ELEM[^;]*?), 0, iu - 1\);", r"compute_reflector3(D, \1, 0, iu - 1);", R.sub(
+        "crp", r"compute_reflector\(D, CUR\(", "compute_reflectorp(D, CUR(", R.sub(
+            "cr3", r"compute_reflector\(D, (m00, m10, (?:0|m20)), il\);", r"compute_reflector3(D, \1, il);", pf(b, R), min_fires=2, max_fires=2), min_fires=1, max_fires=1), min_fires=1, max_fires=1)
+    lc_ub = {0: "__CPROVER_assigns(i, D->m_mat_H.cell, D->ucol[0], D->ucol[1], D->ucol[2], __CPROVER_object_whole(D->m_ref_nr)) "
+                "__CPROVER_loop_invariant(1 <= i && i <= bsize - 2 && (!(il <= g_q && g_q < il + i) || NR_OK(D, g_q, iu + 1)) && (!(0 <= g_q && g_q < D->m_n && (g_q < il || g_q > iu)) || D->m_ref_nr[g_q] == verif_old_nr)) "
+                "__CPROVER_decreases(bsize - 2 - i)"}
+    t, R = cgen.emit(f, "update_block", ret_c="void", self_type="DSC", self_name="D", members=mem, post_fn=ub_late, loop_contracts=lc_ub,
+                     pre_body=' __CPROVER_assert(0 <= il && il <= iu && iu < D->m_n, "precondition of update_block at its call site: 0 <= il <= iu < n"); '
+                              'const unsigned char verif_old_nr = (0 <= g_q && g_q < D->m_n) ? D->m_ref_nr[g_q] : 0;')
+    report["DoubleShiftQR::update_block(cursor)"] = R.fired
+    parts["ub"] = t
+    h_ub = r'''
+#line 1 "harness/kernels.dsqr.update_block.unbounded"
+void h(void) {
+  DSC Dv; DSC *D = &Dv; D->m_n = nondet_Index(); __CPROVER_assume(1 <= D->m_n && D->m_n <= NMAXD); D->m_mat_H = MAT_NEW(D->m_n, D->m_n);
+  D->m_ref_u_cols = D->m_n; D->m_ref_nr = malloc(D->m_n); __CPROVER_assume(D->m_ref_nr != NULL); D->m_near_0 = nondet_Scalar(); D->m_eps = nondet_Scalar(); __CPROVER_assume(D->m_near_0 > (Scalar)0);
+  Index il = nondet_Index(), iu = nondet_Index(); __CPROVER_assume(0 <= il && il <= iu && iu < D->m_n);
+  g_q = nondet_Index(); __CPROVER_assume(0 <= g_q && g_q < D->m_n);
+  unsigned char old = D->m_ref_nr[g_q];
+  update_block(D, il, iu);
+  if (il <= g_q && g_q <= iu) __CPROVER_assert(NR_OK(D, g_q, iu + 1), "dsqr.update_block (all n): every position of the block carries a reflector mark nr in {1,2,3} with q + nr[q] <= iu + 1");
+  else __CPROVER_assert(D->m_ref_nr[g_q] == old, "dsqr.update_block (all n): reflector marks outside the block are not touched");
+  CANARY();
+}
+'''
+    groups = [Group("dsqr.update_block.unbounded", kernels.HQS_TYPES + DSC_TYPES + parts["cr3"] + parts["crp"] + parts["px"] + parts["xp"] + parts["ub"] + h_ub, "h", loop_contracts=True,
+                    solver="cadical", defines=["SCALAR_FLOAT"], timeout=900, functions=[DH + ":" + x for x in ("update_block", "compute_reflector", "apply_PX", "apply_XP")],
+                    expect_classes=["loop_invariant_step", "Eigen block assertion", "block access", "dsqr.update_block (all n)"],
+                    note="UNBOUNDED in n and in the block [il, iu] on the cursor model; stable_norm3 / stable_scaling / hypot replaced by their frames (values do not enter any claim)")]
+    return groups
